@@ -1728,24 +1728,13 @@ func firstMeta(newRec, baseRec *record.Record, idx int) bool {
 		newRec.RecMeta.ColMeta[idx].SetFirst(baseRecV, baseRecTime)
 		newRec.ColVals = baseRec.CopyColVals()
 		return true
-	} else if newRecTime == baseRecTime && firstTieTakesBase(newRecV, baseRecV) {
+	} else if newRecTime == baseRecTime && compareMin(newRecV, baseRecV) {
 		newRec.RecMeta.ColMeta[idx].SetFirst(baseRecV, baseRecTime)
 		newRec.ColVals = baseRec.CopyColVals()
 		return true
 	} else {
 		return false
 	}
-}
-
-// firstTieTakesBase: among two first() candidates of one timestamp the larger value wins, for
-// a boolean the smaller one (false) - the rule of FirstMerge / BooleanFirstMerge in the executor.
-func firstTieTakesBase(newRecV, baseRecV interface{}) bool {
-	if _, ok := newRecV.(bool); ok {
-		if _, ok = baseRecV.(bool); ok {
-			return compareMin(baseRecV, newRecV)
-		}
-	}
-	return compareMin(newRecV, baseRecV)
 }
 
 func compareMin(newRecV, baseRecV interface{}) bool {
